@@ -157,7 +157,19 @@ def gen_case(seed, idx, tier):
         rng.shuffle(p)
         perms.append(p)
     # predict_probability / get_state_probability side checks
-    return {"bn": bn, "query": query, "evidence": ev, "virtual": virt, "perms": perms,
+    decoy = None
+    if (virt or ev) and rng.random() < 0.6:
+        dv = [dict(d, vec=[round(min(1.0, max(0.02, 1.05 - x)), 3) for x in d["vec"]]) for d in virt]
+        dev = {}
+        for v, s_ in ev.items():
+            # same evidence variables; for hard-only cases move one variable to another state
+            dev[v] = s_
+        if not virt and ev:
+            v0 = sorted(ev, key=repr)[0]
+            if bn["card"][v0] > 1:
+                dev[v0] = (ev[v0] + 1) % bn["card"][v0]
+        decoy = {"virtual": dv, "evidence": {v: bn["states"][v][s_] for v, s_ in dev.items()}}
+    return {"bn": bn, "decoy": decoy, "query": query, "evidence": ev, "virtual": virt, "perms": perms,
             "build_seed": rng.randrange(10 ** 6), "gsp": rng.random() < 0.3, "pp": rng.random() < 0.25}
 
 
@@ -229,6 +241,14 @@ def run_case(spec, ctx):
             eo = order
         for joint in (True, False):
             ve = VariableElimination(model)
+            if spec.get("decoy") and (oi + int(joint)) % 2 == 0:
+                # the engine first answers a *different* question of the same shape (same variables and hard
+                # evidence, other likelihood values / other evidence state); the judged answer must not depend on it
+                dq = spec["decoy"]
+                ctx.call(ve.query, list(query), evidence=dq["evidence"] or None,
+                         virtual_evidence=make_virtual(bn, dq["virtual"]) if dq["virtual"] else None,
+                         elimination_order=eo, joint=joint, show_progress=False)
+                ctx.note("decoy-question-asked-first")
             r = ctx.call(ve.query, list(query), evidence=dict(ev_named) or None,
                          virtual_evidence=make_virtual(bn, virt) if virt else None,
                          elimination_order=eo, joint=joint, show_progress=False)
